@@ -167,6 +167,14 @@ def getG (st : St) (i : Nat) : Cont Nat :=
 def setG (st : St) (i : Nat) (g : Cont Nat) : St :=
   { st with graphs := (st.graphs.filter (fun p => p.1 != i)) ++ [(i, g)] }
 
+/-- `@szc=c0,c1,ck` -/
+def szAnnot (toks : List String) : Option (Nat × Nat × Nat) :=
+  match toks.find? (fun t => t.startsWith "@szc=") with
+  | none => none
+  | some t => match ((t.drop 5).toString.splitOn ",").map String.toNat? with
+    | [some a, some b, some c] => some (a, b, c)
+    | _ => none
+
 /-- the `@order=k1,k2,...` annotation of a request line (iteration order of the real hash map) -/
 def orderAnnot (toks : List String) : Option (List Nat) :=
   match toks.find? (fun t => t.startsWith "@order=") with
@@ -257,6 +265,9 @@ def contReq (st : St) (toks : List String) : St × String :=
   | ["g.new", i] => match i.toNat? with
     | some i => (setG st i {}, "ok")
     | none => (st, "bad-op")
+  | "g.sz" :: i :: _ => match i.toNat?, szAnnot toks with
+    | some i, some (c0, c1, ck) => if st.fl == "sun" then (st, "unsupported") else (st, s!"sz={graphSizeof st.s c0 c1 ck (getG st i).members}")
+    | _, _ => (st, "bad-op")
   | ["g.newcap", i, _n] => match i.toNat? with
     | some i => (setG st i {}, "ok")
     | none => (st, "bad-op")
@@ -704,6 +715,9 @@ def step (st : St) (line : String) : St × String :=
       | some (t1, e1), some (t2, e2) => if st.fl == "sdi" then (st, "unsupported") else (st, doEcmp st.directed (u, t1, e1) (v, t2, e2))
       | _, _ => (st, "none")
     | _, _, _, _ => (st, "bad-op")
+  | "sz" :: u :: rest => match u.toNat?, szAnnot rest with
+    | some u, some (c0, c1, _) => (st, s!"sz={nodeSizeof st.s c0 c1 u}")
+    | _, _ => (st, "bad-op")
   | ["nv", u] => match u.toNat? with
     | some u => (st, s!"key={u} val={nodeVal st u} deref={nodeVal st u}")
     | none => (st, "bad-op")
